@@ -1963,3 +1963,6 @@ end Agd.Filter
 #print axioms Agd.Tie.TrC02.response_stage
 #print axioms Agd.Tie.TrC02.filter_choice
 #print axioms Agd.Tie.TrC02.wrap_effect_order
+#print axioms Agd.Tie.TrC02.filterRequest_effects
+#print axioms Agd.Tie.TrC02.filterRequest_nil_ctx
+#print axioms Agd.Tie.TrC02.filterRequest_error_independent
